@@ -23,7 +23,7 @@ pub open spec fn step_rules_ok(layout: LayoutMetadata, red: Map<String, LinkMeta
 pub open spec fn inspection_rules_ok(layout: LayoutMetadata, red: Map<String, LinkMetadata>) -> bool {
     forall|i: int| 0 <= i < layout.inspect@.len() ==> item_rules_ok((#[trigger] layout.inspect@[i]).name@, layout.inspect@[i].expected_materials@, layout.inspect@[i].expected_products@, red)
 }
-pub uninterp spec fn inspections_ran(layout: LayoutMetadata, links: Map<String, LinkMetadata>) -> bool;
+//@include contracts/inspections.rs
 // C08: everything that must have succeeded before any inspection command of `layout` may be started
 pub open spec fn steps_verified(layout: LayoutMetadata, dir: Seq<char>) -> bool {
     unexpired(layout)
